@@ -14,7 +14,8 @@ def run(chk):
                 "<= 3 (quick) / 4 (thorough) indices), TimestampRequestContributions asked for before the commitment, between commitment and proof, and after the proof "
                 "(every placement); invariants Minimal, Exact, action property TRCStable. Replay: every complete life cycle is driven through the real builder "
                 "(CreateDisclosureProofBuilder, ProofBuilderList.Challenge, BuildDistributedProofList) for both session kinds, with the same demands after every "
-                "call. Non-trivial = distinct (credential, set, session kind) / (list, call sequence, session kind).")
+                "call; and the honest prover under constant random streams (all zero bits, all one bits: every randomiser at an end of its range), for ordinary and for maximal "
+                "attribute values, must still produce a verifying proof. Non-trivial = distinct (credential, set, session kind) / (list, call sequence, session kind).")
     chk.assumptions = ["statistical hiding of responses is not modelled (only syntactic absence of hidden values)",
                        "1024-bit fixed keys; credentials are minted with SignMessageBlock by the harness"]
     cfg = "Disclosure.honest.%s.cfg" % T
@@ -39,8 +40,8 @@ def run(chk):
     bp = os.path.join(vplib.sub("c04"), "builder.ndjson")
     open(bp, "w").write("\n".join(bc) + "\n")
     res = vplib.vh("disc", ["builder", "--in", bp, "--tier", T, "--seed", str(chk.seed)], timeout=3000)
-    if res["evaluations"] != 2 * len(bc):
-        raise vplib.Machinery("builder replay: %d of %d" % (res["evaluations"], 2 * len(bc)))
+    if res["evaluations"] != 2 * len(bc) + 4 or (not res["violations"] and res.get("counts", {}).get("extreme-stream-accepted") != 4):
+        raise vplib.Machinery("builder replay: %d of %d (%s)" % (res["evaluations"], 2 * len(bc) + 4, res.get("counts")))
     chk.add_replay(res, "builder_life_cycles")
     chk.exhaustive = True
 
